@@ -16,15 +16,20 @@ import (
 
 // Spec describes one property check.
 type Spec struct {
-	ID       string
-	Level    string // evidence level
-	Rule     string // how cases are generated / what is non-trivial
-	Assume   []string
-	Shards   func(tier string) int
-	Race     func(tier string) bool // run the shards under the race detector
-	Timeout  func(tier string) time.Duration
-	Run      func(c *Ctx)
-	MinEvals int64
+	ID     string
+	Level  string // evidence level
+	Rule   string // how cases are generated / what is non-trivial
+	Assume []string
+	Shards func(tier string) int
+	Race   func(tier string) bool // run the shards under the race detector
+	// RaceIsViolation: a race report with a library frame refutes this
+	// property (its statement is about concurrent use). Otherwise library
+	// races seen while running this check are printed and recorded in the
+	// evidence, but they are C16's subject, not a verdict here.
+	RaceIsViolation bool
+	Timeout         func(tier string) time.Duration
+	Run             func(c *Ctx)
+	MinEvals        int64
 }
 
 var specs = map[string]*Spec{}
@@ -375,11 +380,17 @@ func ParentMain(id string) int {
 		}
 	}
 	raceTotal, raceHarness := 0, 0
+	var raceNotes []string
 	if race {
 		var repo map[string]string
 		repo, raceHarness, raceTotal = raceReports(dir)
 		for sig, blk := range repo {
-			viols = append(viols, Violation{sig, map[string]any{"race_report": blk}})
+			if s.RaceIsViolation {
+				viols = append(viols, Violation{sig, map[string]any{"race_report": blk}})
+			} else {
+				fmt.Printf("RACE-REPORT (library race seen during %s; not a verdict for this property, see C16): %s\n", id, sig)
+				raceNotes = append(raceNotes, sig)
+			}
 		}
 	}
 
@@ -441,6 +452,7 @@ func ParentMain(id string) int {
 	if race {
 		cov["race_reports_total"] = raceTotal
 		cov["race_reports_harness_only"] = raceHarness
+		cov["race_reports_library_not_judged_here"] = append([]string{}, raceNotes...)
 	}
 	if len(merged.Inconclusive) > 0 {
 		l := merged.Inconclusive
